@@ -113,11 +113,11 @@ Proof.
 Qed.
 
 (* ------------------------------------------------------------------ composition with a ready-transparent tail *)
-Definition RT (S : stage) : Prop := forall s ctl, bwd S s ctl true = true.
+Definition RT (S : stage) : Prop := forall s ctl b, bwd S s ctl b true = true.
 
-Lemma RT_id : RT idS. Proof. intros s ctl; reflexivity. Qed.
-Lemma RT_block : RT blockS. Proof. intros s ctl; reflexivity. Qed.
-Lemma RT_regDown : RT regDownS. Proof. intros s ctl; reflexivity. Qed.
+Lemma RT_id : RT idS. Proof. intros s ctl b; reflexivity. Qed.
+Lemma RT_block : RT blockS. Proof. intros s ctl b; reflexivity. Qed.
+Lemma RT_regDown : RT regDownS. Proof. intros s ctl b; reflexivity. Qed.
 
 Lemma split_count : forall cs n, n <= count_rdy cs ->
   exists c1 c2, cs = c1 ++ c2 /\ count_rdy c1 = n.
@@ -149,7 +149,7 @@ Proof.
   specialize (IH (stepS A sa (upc A B sa sb c)) (stepS B sb (midc A B sa sb c))).
   destruct (c_rdy c) eqn:Er; simpl.
   - rewrite HB. simpl. lia.
-  - destruct (bwd B sb (c_ctl c) false); simpl; lia.
+  - destruct (bwd B sb (c_ctl c) _ false); simpl; lia.
 Qed.
 
 Theorem Live_compose : forall dA dB, Live A dA -> Live B dB -> RT B -> Live (compose A B) (dA + dB).
@@ -170,7 +170,7 @@ Proof.
 Qed.
 
 Lemma RT_compose : RT A -> RT B -> RT (compose A B).
-Proof. intros HA HB [sa sb] ctl. simpl. now rewrite HB, HA. Qed.
+Proof. intros HA HB [sa sb] ctl b. simpl. now rewrite HB, HA. Qed.
 End LiveCompose.
 
 Lemma blocks_Live : forall n, Live (blocksS n) n.
